@@ -17,11 +17,12 @@ func init() {
 }
 
 type c13Prog struct {
-	Name  string
-	Code  []uint8
-	Setup func(s *z80.States)
-	Halts bool
+	Name   string
+	Code   []uint8
+	Setup  func(s *z80.States)
+	Halts  bool
 	ZeroIO bool
+	Storm  bool    // the memory-write callback raises an NMI on every write (each acceptance's push raises the next)
 	Fill   []uint8 // the whole memory holds this byte pattern (no instruction ever ends the prefix run / the program never leaves)
 }
 
@@ -56,6 +57,7 @@ var c13Progs = []c13Prog{
 	{Name: "memory filled with NOP", Fill: []uint8{0x00}},
 	{Name: "memory filled with RST 38", Fill: []uint8{0xff}},
 	{Name: "memory filled with DD CB", Fill: []uint8{0xdd, 0xcb}},
+	{Name: "NMI storm: every stack write raises the next NMI ; JR -2", Code: []uint8{0x18, 0xfe}, Storm: true},
 	{Name: "generated terminating program", Halts: true},
 }
 
@@ -266,7 +268,13 @@ func runC13(c *Ctx) {
 		modes[mode]++
 		var after uint64 // accesses seen after the context was done
 		var doneAtCount uint64
+		if pg.Storm {
+			cpu.Interrupt = z80.NMIInterrupt()
+		}
 		mem.Hook = func(m *mon.Mem, a mon.Access) {
+			if pg.Storm && a.Kind == 'W' {
+				cpu.Interrupt = z80.NMIInterrupt()
+			}
 			if cancelAt != 0 && m.Count == cancelAt {
 				if parentCancel != nil {
 					parentCancel()
@@ -354,7 +362,7 @@ func runC13(c *Ctx) {
 		}
 		afterHist[bucket]++
 		// (3) whole number of Steps: a Step-driven twin reaches exactly this state
-		if pan == nil && !pg.ZeroIO {
+		if pan == nil && !pg.ZeroIO && !pg.Storm {
 			if pg.Halts {
 				genP.Install(tm)
 			} else {
@@ -513,6 +521,6 @@ func runC13(c *Ctx) {
 	c.R.Set("gomaxprocs", pm)
 	c.R.Set("programs", int64(len(c13Progs)))
 	c.R.Set("exhaustive", false)
-	c.R.Set("rule", "Run calls on {JR loop, JP loop, JP (IX) loop and LDIR/OTIR/CPIR loops made of prefixed instructions only, INIR and LDIR loops, a port-polling loop, memories filled with one prefix/opcode pattern (DD, FD, DD FD, ED, CB, DD CB, NOP, RST 38), generated terminating programs} with starting R in {0,1,3,7F,random} x cancellation {from inside the program's own bus callback at access 1,2,10,1000,100000 or random, from a second goroutine after a random spin, cancelled before the call, deadline already expired, deadline in 1 ms, a child of a parent cancelled from the callback, never (program halts; context kept alive)} x GOMAXPROCS {1,2,16}. Oracle: returned error == ctx.Err() (nil with the halted state also legal for terminating programs); logical promptness: once the context is done every bus callback yields / sleeps 1 ms and Run may make at most 3000 further accesses (a correct loop needs 1..6) - a count, not a stopwatch; the final States and memory must equal a Step-driven twin advanced to the same access count (whole number of Steps); after every batch of 50 calls no goroutine with a z80 frame may remain, first while the batch's never-cancelled contexts are still alive, then after cancelling them; a hook-free phase runs short terminating programs with contexts that are done at about the moment of the HALT (no yields/sleeps anywhere) so that the race detector sees the HALT exit overlap the publication of the cancellation; zero race reports (binary built with -race). Distinct = distinct (program, GOMAXPROCS, cancellation instant, starting R, mode)")
+	c.R.Set("rule", "Run calls on {JR loop, JP loop, JP (IX) loop and LDIR/OTIR/CPIR loops made of prefixed instructions only, INIR and LDIR loops, a port-polling loop, an NMI storm in which every acceptance's own stack write raises the next NMI, memories filled with one prefix/opcode pattern (DD, FD, DD FD, ED, CB, DD CB, NOP, RST 38), generated terminating programs} with starting R in {0,1,3,7F,random} x cancellation {from inside the program's own bus callback at access 1,2,10,1000,100000 or random, from a second goroutine after a random spin, cancelled before the call, deadline already expired, deadline in 1 ms, a child of a parent cancelled from the callback, never (program halts; context kept alive)} x GOMAXPROCS {1,2,16}. Oracle: returned error == ctx.Err() (nil with the halted state also legal for terminating programs); logical promptness: once the context is done every bus callback yields / sleeps 1 ms and Run may make at most 3000 further accesses (a correct loop needs 1..6) - a count, not a stopwatch; the final States and memory must equal a Step-driven twin advanced to the same access count (whole number of Steps); after every batch of 50 calls no goroutine with a z80 frame may remain, first while the batch's never-cancelled contexts are still alive, then after cancelling them; a hook-free phase runs short terminating programs with contexts that are done at about the moment of the HALT (no yields/sleeps anywhere) so that the race detector sees the HALT exit overlap the publication of the cancellation; zero race reports (binary built with -race). Distinct = distinct (program, GOMAXPROCS, cancellation instant, starting R, mode)")
 	c.R.Assume("nothing assumes that a watcher goroutine exists; leak accounting looks only at goroutines with frames of the code under test")
 }
